@@ -79,8 +79,3 @@ def run(tier: str, seed: int) -> int:
         "float64 compared at 1e-9 (priors) / 1e-11 (gram_util), float32 at 2e-4",
     ]
     return rep.finish()
-
-
-def replay(rep_obj) -> int:
-    print(rep_obj.get("what"))
-    return 1
